@@ -330,6 +330,21 @@ def insert_entry(d, key, val, pos):
         d[k] = v
 
 
+def drop_loop(d, out):
+    """Remove the explicit loop order and spacetime of Einsum `out`: the defaults then follow the partitioning."""
+    for sec in ("loop-order", "spacetime"):
+        m = _get(d, "mapping", sec)
+        if m and out in m:
+            del m[out]
+
+
+def maybe_default_loop(d, out, rng, site):
+    if _get(d, "architecture") is None and rng.random() < 0.5:
+        drop_loop(d, out)
+        return site + " default-loop"
+    return site
+
+
 def fresh(used, stem):
     for i in itertools.count():
         n = stem if i == 0 else "%s%s" % (stem, "ABCDEFGH"[i - 1] if i <= 8 else "X%d" % i)
@@ -484,6 +499,22 @@ def inj_term_mismatch(data, rng, cap):
     for ei, ti, how in sites[:cap]:
         d = copy.deepcopy(data)
         e = parse_expr(d["einsum"]["expressions"][ei])
+        # pad with 0-2 further terms over the SAME rank set (still legal), so that the odd term can sit at any index
+        tv0 = []
+        for f in tensor_factors(e):
+            for x in f["idx"]:
+                for _, v in x:
+                    if v not in tv0:
+                        tv0.append(v)
+        npad = rng.choice([0, 0, 1, 2]) if not has_index_math(d, e) and _get(d, "architecture") is None else 0
+        for _ in range(npad):
+            nm = fresh(set(d["einsum"]["declaration"]), "NP")
+            vs = list(tv0)
+            rng.shuffle(vs)
+            d["einsum"]["declaration"][nm] = [v.upper() for v in vs]
+            e["terms"].insert(rng.randint(0, len(e["terms"])), {"take": None, "factors": [{"name": nm, "idx": [[(1, v)] for v in vs]}]})
+        if npad:
+            ti = rng.randint(0, len(e["terms"]) - (0 if how.startswith("newterm") else 1))
         allv = []
         for f in tensor_factors(e):
             for x in f["idx"]:
@@ -553,7 +584,8 @@ def inj_term_mismatch(data, rng, cap):
             if ro and f["name"] in ro:
                 ro[f["name"]] = list(ro[f["name"]]) + [extra]
         set_expr(d, ei, e)
-        yield "term_rank_mismatch", "%s einsum %d term %d" % (how, ei, ti), d
+        kinds = "".join("k" if t["take"] is not None else "t" for t in e["terms"])
+        yield "term_rank_mismatch", "%s einsum %d term %d of %s" % (how, ei, ti, kinds), d
 
 
 def _flatten_entries(parts):
@@ -597,7 +629,8 @@ def inj_flatten_with_others(data, rng, cap):
         if pos in ("after", "both"):
             ds.append(_other_directives(d, e, ranks[-1], rng))
         parts[k] = ds
-        yield "flatten_with_others", "einsum %d key %s %s" % (ei, k, pos), d
+        yield "flatten_with_others", maybe_default_loop(d, e["out"]["name"], rng, "einsum %d key %s %s [%s]" % (
+            ei, k, pos, ",".join(parse_directive(x)[0] for x in ds))), d
 
 
 def _all_root_ranks(data, e):
@@ -625,7 +658,7 @@ def inj_flatten_lt2(data, rng, cap):
         d = copy.deepcopy(data)
         parts = parts_of(d, es[ei]["out"]["name"], create=True)
         insert_entry(parts, r, ["flatten()"], pos)
-        yield "flatten_lt2", "einsum %d rank %s at entry %d" % (ei, r, pos), d
+        yield "flatten_lt2", maybe_default_loop(d, es[ei]["out"]["name"], rng, "einsum %d rank %s at entry %d" % (ei, r, pos)), d
 
 
 def inj_flatten_index_math(data, rng, cap):
@@ -653,10 +686,15 @@ def inj_flatten_index_math(data, rng, cap):
         parts = parts_of(d, e["out"]["name"], create=True)
         busy = set(x for k in parts for x in parse_key(k))
         others = [x for x in _all_root_ranks(d, e) if x != r and x not in busy]
+        im = has_index_math(d, e)
+        plain = [x for x in others if x not in im]
+        if len(plain) >= n - 1:
+            others = plain                      # the violation sits at position p only
         tup = rng.sample(others, n - 1)
         tup.insert(p, r)
         insert_entry(parts, render_key(tup), ["flatten()"], rng.randint(0, len(parts)))
-        yield "flatten_index_math", "einsum %d rank %s position %d of %d" % (ei, r, p, n), d
+        yield "flatten_index_math", maybe_default_loop(d, e["out"]["name"], rng, "einsum %d rank %s position %d of %d%s" % (
+            ei, r, p, n, " others-plain" if others is plain else "")), d
 
 
 def inj_flatten_and_partitioned(data, rng, cap):
@@ -709,7 +747,7 @@ def inj_flatten_and_partitioned(data, rng, cap):
             tup.insert(pp, r)
             pos = keys.index(k) + (0 if where == "before" else 1)
             insert_entry(parts, render_key(tup), ["flatten()"], pos)
-        yield "flatten_and_partitioned", "einsum %d %s key %s pos %s %s" % (ei, how, k, p, where), d
+        yield "flatten_and_partitioned", maybe_default_loop(d, e["out"]["name"], rng, "einsum %d %s key %s pos %s %s" % (ei, how, k, p, where)), d
 
 
 def inj_flatten_of_flattened(data, rng, cap):
@@ -741,7 +779,7 @@ def inj_flatten_of_flattened(data, rng, cap):
         keys = list(parts)
         pos = keys.index(k) + (0 if where == "before" else 1)
         insert_entry(parts, render_key(tup), ["flatten()"], pos)
-        yield "flatten_of_flattened", "einsum %d key %s position %d of %d %s" % (ei, k, p, n, where), d
+        yield "flatten_of_flattened", maybe_default_loop(d, e["out"]["name"], rng, "einsum %d key %s position %d of %d %s" % (ei, k, p, n, where)), d
 
 
 def inj_nway_after_occupancy(data, rng, cap):
@@ -803,7 +841,8 @@ def inj_nway_after_occupancy(data, rng, cap):
                 ds.insert(j, "nway_shape(2)")
                 ds.insert(i, "uniform_occupancy(%s.3)" % ld)
             parts[k] = ds
-        yield "nway_after_occupancy", "einsum %d key %s %s %d %d" % (ei, k, how, i, j), d
+        pat = "".join({"uniform_shape": "S", "nway_shape": "N", "uniform_occupancy": "O"}.get(parse_directive(x)[0], "?") for x in parts[k])
+        yield "nway_after_occupancy", "einsum %d stack %s (%s)" % (ei, pat, how), d
 
 
 def inj_shape_after_flatten(data, rng, cap):
@@ -857,7 +896,7 @@ def inj_shape_after_flatten(data, rng, cap):
         keys = list(parts)
         pos = keys.index(k) + (0 if where == "before" else 1)
         insert_entry(parts, name, ds, pos)
-        yield "shape_after_flatten", "einsum %d key %s variant %d %s" % (ei, k, variant, where), d
+        yield "shape_after_flatten", maybe_default_loop(d, e["out"]["name"], rng, "einsum %d key %s variant %d %s" % (ei, k, variant, where)), d
 
 
 def inj_directive_on_tuple(data, rng, cap):
@@ -894,7 +933,7 @@ def inj_directive_on_tuple(data, rng, cap):
             parts[k] = ds
         else:
             insert_entry(parts, render_key(ranks), ds, rng.randint(0, len(parts)))
-        yield "directive_on_tuple", "einsum %d %s %s variant %d" % (ei, how, k, variant), d
+        yield "directive_on_tuple", maybe_default_loop(d, e["out"]["name"], rng, "einsum %d %s %s variant %d" % (ei, how, k, variant)), d
 
 
 def inj_project_into_output(data, rng, cap):
